@@ -176,11 +176,32 @@ class RealConn(object):
             c.max_outbound_frame_size, c.max_inbound_frame_size,
             len(c.incoming_buffer.data))
 
+    def snapshot(self):
+        """read-only view of the state the oracles reason about"""
+        c = self.conn
+        streams = {}
+        for sid, st in c.streams.items():
+            sm = st.state_machine
+            streams[sid] = (sm.state.name, sm.stream_closed_by.name if sm.stream_closed_by is not None else None,
+                            st.outbound_flow_control_window, st.inbound_flow_control_window,
+                            getattr(st._inbound_window_manager, 'max_window_size', None),
+                            bool(sm.headers_sent), bool(sm.headers_received), bool(sm.trailers_sent),
+                            bool(sm.trailers_received), sm.client)
+        wm = c._inbound_flow_control_window_manager
+        return {'state': c.state_machine.state.name, 'streams': streams,
+                'out_win': c.outbound_flow_control_window, 'in_win': wm.current_window_size, 'in_max': wm.max_window_size,
+                'max_out': c.max_outbound_frame_size, 'max_in': c.max_inbound_frame_size,
+                'hi_in': c.highest_inbound_stream_id, 'hi_out': c.highest_outbound_stream_id,
+                'closed': dict((k, (v.name if v is not None else None)) for k, v in c._closed_streams.items()) if len(c._closed_streams) < 64 else None,
+                'local': dict((int(k), list(v)) for k, v in c.local_settings._settings.items()),
+                'remote': dict((int(k), list(v)) for k, v in c.remote_settings._settings.items())}
+
     # -- execution -----------------------------------------------------------
     def execute(self, op):
         c = self.conn
         o = op['op']
         before = self.outbuf()
+        snap_before = self.snapshot()
         nenc = len(self.enc.log)
         ndec = len(self.dec.log)
         events = []
@@ -220,6 +241,7 @@ class RealConn(object):
             # raw material (not printed): for oracles and for the model's HPACK oracle annex
             'raw_events': events, 'exc': exc, 'appended': after[len(before):] if after.startswith(before) else None,
             'outbuf': after, 'enc_recs': enc_recs, 'dec_recs': dec_recs,
+            'snap_before': snap_before, 'snap_after': self.snapshot(), 'outbuf_before': before,
         }
         self.trace.append((op, obs))
         return obs
